@@ -52,7 +52,7 @@ vars == <<cfg, in, abs, pc, ai, cj, errs, oks, verdict, ret, step>>
 Assn(ii, nb, nooa, confs) == [ii |-> ii, nb |-> nb, nooa |-> nooa, confs |-> confs]
 
 \* Family A: one assertion, one confirmation, full 5-point lattice on all five instants
-InputsA == { [respII |-> r, assns |-> << Assn(a, nb, no, <<c>>) >>] :
+InputsA == { [entry |-> "xml", artII |-> "in1", respII |-> r, assns |-> << Assn(a, nb, no, <<c>>) >>] :
                r \in Classes, a \in Classes, nb \in Classes, no \in Classes, c \in Classes }
 
 \* Family B: 1..2 assertions x 1..3 confirmations on the reduced lattice, every position
@@ -63,18 +63,25 @@ AssnsB == UNION { { Assn(a, nb, no, cs) : a \in Classes2, nb \in Classes2, no \i
 B(x) == IF x = "out1" THEN 1 ELSE 0
 OneOff == { a \in AssnsB : B(a.ii) + B(a.nb) + B(a.nooa)
                            + Cardinality({ j \in DOMAIN a.confs : a.confs[j] = "out1" }) <= 1 }
-InputsB == { [respII |-> "in1", assns |-> <<a>>] : a \in AssnsB }
-           \cup { [respII |-> "in1", assns |-> <<a, b>>] : a \in OneOff, b \in OneOff }
+InputsB == { [entry |-> "xml", artII |-> "in1", respII |-> "in1", assns |-> <<a>>] : a \in AssnsB }
+           \cup { [entry |-> "xml", artII |-> "in1", respII |-> "in1", assns |-> <<a, b>>] : a \in OneOff, b \in OneOff }
 
 \* Family C: absent instants, one at a time and all together
-InputsC == { [respII |-> r, assns |-> << Assn(a, nb, no, <<c>>) >>] :
+InputsC == { [entry |-> "xml", artII |-> "in1", respII |-> r, assns |-> << Assn(a, nb, no, <<c>>) >>] :
                r \in {"in1", "none"}, a \in {"in1", "none"}, nb \in {"in1", "none"},
                no \in {"in1", "none"}, c \in {"in1", "none"} }
 
+\* Family D: the Response travels inside an ArtifactResponse (signed: "artS", or unsigned with a signed
+\* Response inside: "artU"); the inner Response's own IssueInstant still counts
+InputsD == { [entry |-> e, artII |-> ai_, respII |-> r, assns |-> << Assn(a, nb, no, <<c>>) >>] :
+               e \in {"artS", "artU"}, ai_ \in {"farIn", "in1", "out1"}, r \in Classes,
+               a \in Classes2, nb \in Classes2, no \in Classes2, c \in Classes2 }
+
 Inputs == CASE Family = "A" -> InputsA [] Family = "B" -> InputsB [] Family = "C" -> InputsC
             [] Family = "AB" -> InputsA \cup InputsB [] Family = "ABC" -> InputsA \cup InputsB \cup InputsC
+            [] Family = "ABCD" -> InputsA \cup InputsB \cup InputsC \cup InputsD
 
-AbsOf(i, s) == [respII |-> AbsII(i.respII, s),
+AbsOf(i, s) == [artII |-> AbsII(i.artII, s), respII |-> AbsII(i.respII, s),
                 assns  |-> [k \in DOMAIN i.assns |->
                               [ii    |-> AbsII(i.assns[k].ii, s),
                                nb    |-> AbsNB(i.assns[k].nb, s),
@@ -84,10 +91,18 @@ AbsOf(i, s) == [respII |-> AbsII(i.respII, s),
 Init == /\ cfg \in Settings
         /\ in \in Inputs
         /\ abs = AbsOf(in, cfg)
-        /\ pc = "RespII" /\ ai = 1 /\ cj = 1 /\ errs = <<>> /\ oks = <<>>
+        /\ pc = (IF in.entry = "xml" THEN "RespII" ELSE "ArtII") /\ ai = 1 /\ cj = 1 /\ errs = <<>> /\ oks = <<>>
         /\ verdict = "none" /\ ret = 0 /\ step = "none"
 
 (************************* the code, step by step *************************)
+\* service_provider.go:889  artifactResponse.IssueInstant.Add(MaxIssueDelay).Before(now)
+CheckArtII ==
+  /\ pc = "ArtII"
+  /\ IF abs.artII + cfg.mid < Now
+       THEN /\ pc' = "done" /\ verdict' = "reject" /\ step' = "ArtIssueInstant"
+            /\ UNCHANGED <<ai, cj, errs, oks, ret>>
+       ELSE /\ pc' = "RespII" /\ UNCHANGED <<ai, cj, errs, oks, verdict, ret, step>>
+  /\ UNCHANGED <<cfg, in, abs>>
 \* service_provider.go:1022  response.IssueInstant.Add(MaxIssueDelay).Before(now)
 CheckRespII ==
   /\ pc = "RespII"
@@ -147,12 +162,12 @@ Finish ==
        ELSE verdict' = "reject" /\ ret' = 0 /\ step' = errs[1]
   /\ UNCHANGED <<cfg, in, abs, ai, cj, errs, oks>>
 
-Next == CheckRespII \/ CheckAssnII \/ CheckConf \/ CheckCondNB \/ CheckCondNOOA \/ Finish
+Next == CheckArtII \/ CheckRespII \/ CheckAssnII \/ CheckConf \/ CheckCondNB \/ CheckCondNOOA \/ Finish
 Spec == Init /\ [][Next]_vars
 
 (************************** Properties (statement) *************************)
 Done == pc = "done"
-HasNone == \/ in.respII = "none"
+HasNone == \/ in.respII = "none" \/ in.artII = "none"
            \/ \E k \in DOMAIN in.assns : \/ "none" \in {in.assns[k].ii, in.assns[k].nb, in.assns[k].nooa}
                                          \/ \E j \in DOMAIN in.assns[k].confs : in.assns[k].confs[j] = "none"
 
@@ -169,7 +184,8 @@ WithinResp == Now <= abs.respII + cfg.mid
 StrictResp == Now <  abs.respII + cfg.mid
 
 MustReject == ~HasNone /\ (~WithinResp \/ \A k \in DOMAIN abs.assns : ~WithinAssn(abs.assns[k]))
-MustAccept == ~HasNone /\ StrictResp /\ \A k \in DOMAIN abs.assns : StrictAssn(abs.assns[k])
+ArtFresh   == in.entry = "xml" \/ Now < abs.artII + cfg.mid
+MustAccept == ~HasNone /\ ArtFresh /\ StrictResp /\ \A k \in DOMAIN abs.assns : StrictAssn(abs.assns[k])
 Class == IF MustReject THEN "MustReject" ELSE IF MustAccept THEN "MustAccept" ELSE "DontCare"
 
 \* what the statement demands of the design
